@@ -110,7 +110,7 @@ static _Bool reg_all_detached(void) { unsigned long k; for (k = 0; k < g_rn && k
 META = dict(
     technique='CBMC 6.11 function contracts (dfcc) with a one-RMW atomic discipline (time stamps, notification protocol) + a history lemma; bounded unwinding against exact specifications for the observer registry',
     level="proof",
-    level_text="TimeStamp creation/renewal is proved to take exactly one value from the global counter through one atomic read-modify-write, so every fresh or renewed stamp is >= every value handed out before and < the counter (distinct and increasing); copies carry their source's value. notifyObservers/wasNotified are proved against property-level contracts over the stamp invariant (every stamp < counter): wasNotified returns true exactly when the observable notified since the previous poll, reports it only once, false for an orphaned observer, and preserves the invariant; a history lemma (notify/poll sequences over two observers) is proved from those contracts only.",
+    level_text="TimeStamp creation/renewal is proved to take exactly one value from the global counter through one atomic read-modify-write, so every fresh or renewed stamp is >= every value handed out before and < the counter (distinct and increasing); copies and moved-to stamps (copy / move construction, copy / move assignment) carry their source's value. notifyObservers/wasNotified are proved against property-level contracts over the stamp invariant (every stamp < counter): wasNotified returns true exactly when the observable notified since the previous poll, reports it only once, false for an orphaned observer, and preserves the invariant; a history lemma (notify/poll sequences over two observers) is proved from those contracts only.",
     level_note="Single-thread semantics of std::atomic + one-RMW discipline; the observer registry is checked by BOUNDED exact contracts (unit c19_registry, at most 3 observers, bounded std::vector code model, std::remove / std::find reference models): registerObserver appends, removeObserver drops exactly that observer and keeps the others in order, ~Observable detaches every registered observer, ~Observer removes itself from a live observable and touches nothing when already detached -- together: nothing dangles in either destruction order.",
     bounded=["observer registry (unit c19_registry): at most 3 registered observers, unwind 7"],
     assumptions=["std::atomic sequential model", "bounded std::vector code model; std::remove / std::find reference models", "counter below 10^12 (no wrap-around of size_t)"],
